@@ -12,6 +12,7 @@ import common
 from common import enc
 
 NAMES = ["d", "s", "dd"]
+OUTSIDE = [""]      # a populated directory outside every scratch tree (target of symbolic links)
 
 
 def scratch_base():
@@ -51,6 +52,10 @@ def random_tree(r, depth, names):
             # a symbolic link that does not resolve (dangling, self-referential, or valid only through the directory's
             # old name): still an entry of the directory, so it gets its event like any file
             t[n] = r.choice(["L:nowhere", "L:" + n, "L:../s/gone", "L:/nonexistent-wdverif/x"])
+        elif k < 0.50:
+            # a symbolic link that resolves to a directory - the directory it sits in, or a populated one outside the tree:
+            # os.walk lists it among the directories but never enters it; it is ONE descendant (of the Dir flavour)
+            t[n] = r.choice(["L:.", "L:@OUT", "L:@OUT/sub"])
         elif k < 0.7 or depth == 0:
             t[n] = None
         else:
@@ -65,7 +70,7 @@ def build(path, tree):
         if sub is None:
             open(p, "w").close()
         elif isinstance(sub, str):
-            os.symlink(sub[2:], p)
+            os.symlink(sub[2:].replace("@OUT", OUTSIDE[0]), p)
         else:
             build(p, sub)
 
@@ -75,8 +80,16 @@ def serialise(path):
     toks = []
     with os.scandir(path) as it:
         entries = list(it)
+    def link_to_dir(e):
+        try:
+            return e.is_symlink() and e.is_dir()
+        except OSError:          # ELOOP: a link to itself
+            return False
+
     for e in entries:
-        if e.is_dir(follow_symlinks=False):
+        if link_to_dir(e):
+            toks += ["D", enc(e.name), "0"]       # a link to a directory: listed as a directory, never entered
+        elif e.is_dir(follow_symlinks=False):
             sub, k = serialise(e.path)
             toks += ["D", enc(e.name), str(k)] + sub
         else:
@@ -86,6 +99,14 @@ def serialise(path):
 
 def count(tree):
     return sum(1 + (count(s) if isinstance(s, dict) else 0) for s in tree.values())
+
+
+CAP = 5000
+
+
+def capped(gen):
+    """the events of a generator, at most CAP of them (a walk that follows a link into its own directory never ends)"""
+    return list(itertools.islice(gen, CAP))
 
 
 def show(events, kind):
@@ -122,6 +143,10 @@ def run(res, tier, lean, proof_breaks=(), build_log=""):
     lines, impl, meta = [], [], []
     try:
         os.chdir(base)
+        OUTSIDE[0] = os.path.join(base, "outside")
+        os.makedirs(os.path.join(OUTSIDE[0], "sub", "dd"))
+        for f_ in ("secret", "sub/x", "sub/dd/y"):
+            open(os.path.join(OUTSIDE[0], f_), "w").close()
         # a tree that literally repeats the absolute destination path inside itself
         rel_of_base = base.strip("/").split("/")
         nested = {}
@@ -132,6 +157,7 @@ def run(res, tier, lean, proof_breaks=(), build_log=""):
         cur["f"] = None
         trees.append(nested)
         trees.append({"a": None, "l1": "L:nowhere", "s": {"loop": "L:loop", "via_old": "L:../../s/s/f", "f": None, "dd": {"l2": "L:gone"}}})
+        trees.append({"f1": None, "d1": {"f2": None, "d2": {}}, "lnk": "L:d1", "out": "L:@OUT", "dd": {"self": "L:.", "up": "L:.."}})
         for i, tree in enumerate(trees):
             if os.path.exists("d"):
                 shutil.rmtree("d")
@@ -148,12 +174,12 @@ def run(res, tier, lean, proof_breaks=(), build_log=""):
             else:
                 spellings = spellings + odd
             for src, dst in spellings:
-                evs = list(generate_sub_moved_events(src, dst))
+                evs = capped(generate_sub_moved_events(src, dst))
                 lines.append(f"submoved {enc(src)} {enc(dst)} {ttok}")
                 impl.append(show(evs, "moved"))
                 meta.append((tree, src, dst))
             for d in (["d", os.path.join(base, "d"), b"d"] if (thorough or i <= 40) else ["d"]):
-                evs = list(generate_sub_created_events(d))
+                evs = capped(generate_sub_created_events(d))
                 lines.append(f"subcreated {enc(d)} {ttok}")
                 impl.append(show(evs, "created"))
                 meta.append((tree, None, d))
